@@ -231,6 +231,11 @@ func checkC05(c *Ctx) {
 						}
 					}
 				}
+				// M6: a participant answers a phase once - a failure report (or a decline) from a participant whose
+				// contribution of the running phase is already recorded is a second, different answer
+				if ph, ok := map[string]int{"decline": 0, "commiterr": 1, "dealerr": 2, "responseerr": 3, "masterkeyerr": 4}[ev.Kind]; ok && ev.Known && mon.Inited && !mon.Cancelled && ph == mon.Phase && ev.P < 31 && mon.Got[ph]&(1<<uint(ev.P)) != 0 {
+					c.Violate("C05/M6-second-answer-accepted:"+ev.Kind, fmt.Sprintf("%s accepted in %s although participant %d has already delivered this phase's contribution (next state %s)", ev.Label, res.Before, ev.P, res.After), wit())
+				}
 				// M4
 				failure := ev.Kind == "decline" || (len(ev.Kind) > 3 && ev.Kind[len(ev.Kind)-3:] == "err") || ev.Variant == "late" || (nm.KeyGood && nm.KeyBad)
 				if failure && !isCancelled(res.After) {
